@@ -179,6 +179,107 @@ def ranking_info(b, head, tail):
     return False, last_why, None
 
 
+def up_counter_info(b, head, tail):
+    """third accepted loop shape: a counter that counts UP to a constant: `while n < K { ..; n += c }` -- a test evaluated on
+    every iteration leaves the loop once the counter reaches K, the counter starts at a constant, is incremented by a
+    positive constant on every path to the back-edge and assigned nowhere else in the loop"""
+    loop = b.natural_loop(tail, head)
+    tests = []
+    for i in sorted(loop):
+        t = b.blocks[i]['term']
+        if t['k'] != 'switch' or not (b.dominates(i, tail) or i == tail):
+            continue
+        succs = b.succ_edges(i)
+        if not any(tgt not in loop for _, tgt in succs) or not any(tgt in loop for _, tgt in succs):
+            continue
+        d = t['discr']
+        if d.get('k') not in ('copy', 'move') or d['p']['proj']:
+            continue
+        cmp_stmt = None
+        for s in b.blocks[i]['stmts']:
+            if s['k'] == 'assign' and s['p']['l'] == d['p']['l'] and not s['p']['proj'] and s['r']['k'] == 'bin':
+                cmp_stmt = s['r']
+        if cmp_stmt is None or cmp_stmt['op'] not in ('Gt', 'Ge', 'Lt', 'Le'):
+            continue
+        op = cmp_stmt['op']
+        ctr, k = _src_local(b, i, cmp_stmt['l']), _const_of(cmp_stmt['r'])
+        if ctr is None or k is None:
+            ctr, k = _src_local(b, i, cmp_stmt['r']), _const_of(cmp_stmt['l'])
+            op = {'Gt': 'Lt', 'Ge': 'Le', 'Lt': 'Gt', 'Le': 'Ge'}[op]
+        if ctr is None or k is None:
+            continue
+        stay_when_true = t['otherwise'] in loop
+        bound = None          # the loop stays while ctr < bound
+        if stay_when_true and op == 'Lt':
+            bound = k
+        elif stay_when_true and op == 'Le':
+            bound = k + 1
+        elif not stay_when_true and op == 'Ge':
+            bound = k
+        elif not stay_when_true and op == 'Gt':
+            bound = k + 1
+        if bound is not None:
+            tests.append((i, ctr, bound))
+    last_why = 'no exit test `counter < const` is evaluated on every iteration'
+    for test_bb, ctr, bound in tests:
+        incs, inc_by, others, init = set(), set(), [], None
+        for i, blk in enumerate(b.blocks):
+            if blk['cleanup']:
+                continue
+            for s in blk['stmts']:
+                if s['k'] != 'assign' or s['p']['l'] != ctr or s['p']['proj']:
+                    continue
+                rv = s['r']
+                is_inc = False
+                if rv['k'] == 'bin' and rv['op'] in ('Add', 'AddUnchecked') and _src_local(b, i, rv['l']) == ctr and (_const_of(rv['r']) or 0) > 0:
+                    is_inc = True
+                    inc_by.add(_const_of(rv['r']))
+                if rv['k'] == 'use' and rv['op'].get('k') in ('copy', 'move') and rv['op']['p']['proj'] and rv['op']['p']['proj'][0].get('i') == 0:
+                    tl = rv['op']['p']['l']
+                    for j, blk2 in enumerate(b.blocks):
+                        for s2 in blk2['stmts']:
+                            if s2['k'] == 'assign' and s2['p']['l'] == tl and not s2['p']['proj'] and s2['r']['k'] == 'bin' and \
+                                    s2['r']['op'] == 'AddWithOverflow' and _src_local(b, j, s2['r']['l']) == ctr and (_const_of(s2['r']['r']) or 0) > 0:
+                                is_inc = True
+                                inc_by.add(_const_of(s2['r']['r']))
+                if i in loop:
+                    (incs.add(i) if is_inc else others.append(i))
+                else:
+                    if rv['k'] == 'use' and _const_of(rv['op']) is not None and b.dominates(i, head):
+                        init = _const_of(rv['op'])
+                    elif i in b.reachable(0):
+                        others.append(i)
+            t = blk['term']
+            if t['k'] == 'call' and t['dest']['l'] == ctr and i in loop:
+                others.append(i)
+        if init is None or init < 0 or init >= bound:
+            last_why = 'counter _%d has no constant initial value below the bound dominating the loop' % ctr
+            continue
+        if others:
+            last_why = 'counter _%d is also assigned at %s' % (ctr, [b.where(i) for i in others])
+            continue
+        if not incs:
+            last_why = 'counter _%d is never incremented inside the loop' % ctr
+            continue
+        reach = set()
+        st = [s_ for s_ in b.succs(head) if s_ in loop]
+        while st:
+            x = st.pop()
+            if x in reach or x in incs or x not in loop:
+                continue
+            reach.add(x)
+            if x == tail:
+                continue
+            st.extend(b.succs(x))
+        if (tail in reach and tail not in incs) or (head == tail and head not in incs):
+            last_why = 'a path through the loop body reaches the back-edge without incrementing _%d' % ctr
+            continue
+        desc = 'counter _%d starts at %d, the loop is left unless _%d < %d (tested at %s on every iteration), incremented by %s at %s on every path to the back-edge' % (
+            ctr, init, ctr, bound, b.where(test_bb), sorted(inc_by), sorted(b.where(i) for i in incs))
+        return True, desc, {'ctr': ctr, 'init': max(0, bound - init), 'decs': incs, 'dec_by': inc_by, 'kind': ('up', bound), 'bound': bound}
+    return False, last_why, None
+
+
 def _defs_of(b, l):
     """all whole-local definitions of l: (block, kind, payload)"""
     out = []
@@ -264,6 +365,9 @@ def ranking(b, head, tail):
         ok2, why2, _ = range_loop_info(b, head, tail)
         if ok2:
             return True, why2
+        ok3, why3, _ = up_counter_info(b, head, tail)
+        if ok3:
+            return True, why3
     return ok, why
 
 
